@@ -14,6 +14,8 @@ import (
 	"strings"
 	"testing"
 	"time"
+	"unicode"
+	"unicode/utf8"
 
 	"golang.org/x/tools/go/ast/astutil"
 	"pgregory.net/rapid"
@@ -327,11 +329,12 @@ func canonSet(m map[string]string) []string {
 
 var reUserCall = regexp.MustCompile(`\bderive[A-Z]\w*T\d+\b`)
 
-var customPool = []string{"gen", "my", "d", "Derive", "mk", "auto_", "x", "go", "map"}
+var customPool = []string{"gen", "my", "d", "Derive", "mk", "auto_", "x", "go", "map", "\u751f\u6210", "d\u00e9riv\u00e9", "\u03bb"}
+
 // overrides: ordinary identifiers, and Go keywords (a prefix is only the beginning of a function name: mapLen, goAll
 // and rangeOf are legal identifiers although map, go and range are not)
 var overridePool = []string{"same", "ord", "eq", "cmp", "h", "cp", "srt", "ks", "has", "uniq", "gs", "clone", "Min", "keysOf",
-	"map", "go", "range", "select", "type", "func", "var", "if", "for", "chan"}
+	"map", "go", "range", "select", "type", "func", "var", "if", "for", "chan", "\u00e9gal", "\u03bb", "\u751f"}
 
 func pick[T any](t *rapid.T, label string, xs []T) T {
 	return xs[rapid.IntRange(0, len(xs)-1).Draw(t, label)]
@@ -391,7 +394,8 @@ func drawConfig(t *rapid.T, d *drawn) *config {
 			case 1:
 				pre = "auto" + defaults[pl]
 			case 2:
-				pre = "derive" + strings.ToUpper(pre[:1]) + pre[1:]
+				first, size := utf8.DecodeRuneInString(pre)
+				pre = "derive" + string(unicode.ToUpper(first)) + pre[size:]
 			}
 			if usedPre[pre] || c.override[pl] != "" {
 				continue
